@@ -138,7 +138,7 @@ def gen_repetitive(rng):
 
 
 def gen_table(rng):
-    fmt = weighted(rng, [("csv", 3), ("arff", 3), ("libsvm", 2), ("manik", 1)])
+    fmt = weighted(rng, [("csv", 3), ("arff", 3), ("libsvm", 2), ("manik", 1), ("arff_sparse", 1.5)])
     n_rows, n_cols = 1 + rng.randrange(4), 1 + rng.randrange(3)
     eol = weighted(rng, [("\n", 1), ("\r\n", 1)])
     if fmt == "csv":
@@ -152,6 +152,18 @@ def gen_table(rng):
         for r in rows:
             w.writerow(r)
         return {"fmt": fmt, "text": buf.getvalue(), "header": header, "rows": rows}
+    if fmt == "arff_sparse":
+        # sparse ARFF in the plain Weka dialect: numeric attributes, a numeric label column, rows as {index value, ...}; an instance
+        # whose values are all zero is written as {} (also as the first row); read through the labelled pipeline the environments use
+        names = [f"a{c}" for c in range(n_cols)] + ["y"]
+        lines = ["@relation r"] + [f"@attribute {n} numeric" for n in names] + ["@data"]
+        rows = []
+        for ri in range(n_rows):
+            empty = rng.random() < (0.4 if ri == 0 else 0.15)
+            vals = {} if empty else {c: float(rng.choice([1, 2.5, -3, 10])) for c in range(n_cols + 1) if rng.random() < 0.6}
+            lines.append("{" + ", ".join(f"{c} {v}" for c, v in sorted(vals.items())) + "}")
+            rows.append([{names[c]: v for c, v in vals.items() if c < n_cols}, vals.get(n_cols, 0)])
+        return {"fmt": fmt, "text": eol.join(lines) + eol, "rows": rows}
     if fmt == "arff":
         kinds = [rng.choice(["numeric", "nominal", "string"]) for _ in range(n_cols)]
         pool = ["A", "B b", "C", "d,e", "0", "1"]
@@ -200,6 +212,10 @@ def parse_table(fmt, lines):
     from coba.pipes.readers import CsvReader, ArffReader, LibsvmReader, ManikReader
     if fmt == "csv":
         return [list(r) for r in CsvReader(has_header=True).filter(lines)]
+    if fmt == "arff_sparse":
+        from coba.pipes import Pipes
+        from coba.pipes.rows import LabelRows
+        return [[{k: v for k, v in dict(r).items() if k != "y"}, r.label] for r in Pipes.join(ArffReader(), LabelRows("y", "r")).filter(lines)]
     if fmt == "arff":
         out = []
         for r in ArffReader().filter(lines):
@@ -216,7 +232,7 @@ class C12:
     tiers = {"quick": {"runs": 50000, "budget_s": 80, "chunk": 250, "twice_every": 0, "shrink_s": 30},
              "thorough": {"runs": 2000000, "budget_s": 840, "chunk": 400, "twice_every": 0, "shrink_s": 60}}
     rule = ("delivery: one evaluation = one payload (adversarial text with LF/CRLF/lone CR/blank lines/unterminated last line, 2-4 byte "
-            "UTF-8 characters, occasionally other Unicode line boundaries; or a small table serialised as RFC-4180 CSV / dense ARFF / "
+            "UTF-8 characters, occasionally other Unicode line boundaries; or a small table serialised as RFC-4180 CSV / dense ARFF / sparse numeric ARFF read through LabelRows / "
             "LibSVM / Manik; nominal ARFF columns each declare their own level list and the cells' levels/as_int/as_onehot are compared) delivered through the real HttpSource path for EVERY chunk_size 1..len(bytes)+1 x {identity, gzip, deflate} "
             "plus 6 seeded short-read schedules; disk: one evaluation = one list of lines written with the real DiskSink (plain/.gz, every "
             "batch setting, several writes) and read back with DiskSource. non-trivial = payload has a multi-byte character or a CR; "
